@@ -42,6 +42,12 @@ type Case struct {
 	// FlipFile "b"/"f" flips a byte of that file at FlipPos (mod size).
 	FlipFile string `json:"flip_file,omitempty"`
 	FlipPos  int    `json:"flip_pos,omitempty"`
+	// FlipSel aims the flip at one entry of the file: "" (anywhere) | first
+	// | last | tip (the height of the lower store tip: the end of the
+	// overlap between file and stores) | tip-1 | tip+1. FlipPos then selects
+	// the byte inside that entry. Falls back to "anywhere" when the file does
+	// not hold that height.
+	FlipSel string `json:"flip_sel,omitempty"`
 	// FailCommit > 0: the FailCommit-th database commit of the import fails.
 	FailCommit int `json:"fail_commit,omitempty"`
 	// FileFail "b"/"f": the FileFailNth write to that store's flat file
@@ -100,9 +106,10 @@ func genCase(t *rapid.T) Case {
 	case 2, 3:
 		c.Mut = kit.GenMut(t, "mut")
 		c.MutK = rapid.IntRange(0, c.End-c.Start).Draw(t, "mutk")
-	case 4:
+	case 4, 8, 9:
 		c.FlipFile = kit.Pick(t, "flipfile", []string{"b", "f"})
 		c.FlipPos = rapid.IntRange(0, 1<<20).Draw(t, "flippos")
+		c.FlipSel = kit.Pick(t, "flipsel", []string{"", "first", "last", "tip", "tip", "tip-1", "tip+1"})
 	case 5, 6:
 		c.FailCommit = rapid.IntRange(1, 8).Draw(t, "failcommit")
 	case 7:
@@ -217,12 +224,32 @@ func runCase(t *testing.T, c Case) (v kit.Verdict) {
 	}
 	bdata, fdata := bb.Bytes(), fb.Bytes()
 	flipped := false
+	flipOff := func(size, entry, first, last int) int {
+		h := -1
+		switch c.FlipSel {
+		case "first":
+			h = first
+		case "last":
+			h = last
+		case "tip":
+			h = min(c.PreB, c.PreF)
+		case "tip-1":
+			h = min(c.PreB, c.PreF) - 1
+		case "tip+1":
+			h = min(c.PreB, c.PreF) + 1
+		}
+		if h < first || h > last || (h-first+1)*entry > size {
+			return c.FlipPos % size
+		}
+		v.Class("flip-aimed:%s/%s", c.FlipFile, c.FlipSel)
+		return (h-first)*entry + c.FlipPos%entry
+	}
 	if c.FlipFile == "b" && len(bdata) > 0 {
-		bdata[c.FlipPos%len(bdata)] ^= 0x40
+		bdata[flipOff(len(bdata), 80, start, end)] ^= 0x40
 		flipped = true
 	}
 	if c.FlipFile == "f" && len(fdata) > 0 {
-		fdata[c.FlipPos%len(fdata)] ^= 0x40
+		fdata[flipOff(len(fdata), 32, fstart, fend)] ^= 0x40
 		flipped = true
 	}
 	var fileB []wire.BlockHeader
@@ -394,6 +421,20 @@ func runCase(t *testing.T, c Case) (v kit.Verdict) {
 		if e := w.Rules.CheckChain(hs, 1, nil); e != "" {
 			v.Fail("C14/success-invalid-chain", "import reported success but the block chain is not valid: %s", e)
 			return
+		}
+		// "Extended by the file's headers": filter headers are a hash
+		// chain, the file's entry at T+1 continues the file's entry at T.
+		// With level stores at T, entries appended above T are an extension
+		// of the earlier contents only if the file agrees with the store at
+		// the junction T (a mismatch with existing data there must be
+		// refused; mismatches deeper inside the overlap are only sampled by
+		// the importer and are tolerated here).
+		if preB == preF && fTip > preF && preF >= fstart && preF-fstart < len(fileF) {
+			if fileF[preF-fstart] != fSrc(preF) {
+				v.Fail("C14/junction-mismatch-accepted", "import reported success and appended the file's filter headers %d..%d although the file's filter header at the stores' tip %d differs from the stored one: what was appended continues the file's chain, not the stores' contents", preF+1, fTip, preF)
+				return
+			}
+			v.Class("junction:file-agrees-with-store-tip")
 		}
 		if !clean {
 			v.Class("defective-file-accepted(harmless)")
